@@ -19,12 +19,12 @@ RULE = ("a history of operations enter(runtime object: fresh | derived from the 
         "with a stack model (entered runtime = its overrides over the global default table as of now). After every run "
         "step the handler tag served must equal the model (TypeError when no handler); after every exit the model's "
         "current runtime serves again; at the end the thread's runtime is the one from before the outermost block; "
-        "deriving never changes what the parent serves. part 'exhaustive': ALL well-nested histories up to length 4 "
+        "deriving never changes what the parent serves. part 'exhaustive': ALL well-nested histories up to length 5 "
         "(quick) / 6 (thorough) over a reduced alphabet; part 'random': histories up to length 25 over the full alphabet. "
         "Non-trivial = the history leaves a block (normally or by exception) and then runs a request, or re-enters an "
         "active object, or registers a default late; distinct = distinct history hash.")
 ASSUMPTIONS = [
-    "re-registering a default handler for a type that already has one is not generated (the property leaves open whether existing runtimes see it)",
+    "after a default handler is registered a second time, requests of that type are only checked in runtimes that held no handler for it when they were created (for the others the property leaves open which default serves)",
     "each history runs in a new thread; the global default table only grows (fresh request types per case)",
 ]
 EXHAUSTIVE_ALL = False
@@ -49,29 +49,45 @@ def interpret(ops, touched):
     if touched:
         base_obj = runtime.current_runtime()
     # model: each runtime object -> dict of overrides {type idx: tag}
-    pool = []            # [(Runtime object, overrides)]
+    pool = []            # [(Runtime object, overrides, request types that had a default when it was created)]
+    redefaulted = set()  # type indices whose default was registered more than once
+    AMBIGUOUS = object()
+    base_had = set(defaults) if touched else None   # None: the thread's runtime does not exist yet
     stack = []           # entered: indices into pool; base below
     base_over = {}
 
     def cur_over():
         return pool[stack[-1]][1] if stack else base_over
 
+    def cur_had():
+        return pool[stack[-1]][2] if stack else base_had
+
     def expect(ti):
         o = cur_over()
         if ti in o:
             return o[ti]
         if ti in defaults:
+            had = cur_had()
+            if ti in redefaulted and (had is None or ti in had):
+                # the runtime copied an earlier default for this type: which of the two serves is left open
+                return AMBIGUOUS
             return defaults[ti]
         return TypeError
 
     def do_run(ti, where):
         exp = expect(ti)
+        nonlocal base_had
+        if base_had is None and not stack:
+            base_had = set(defaults)   # the thread's implicit runtime is created by this request
         try:
             got = types[ti]().run()
         except TypeError:
             got = TypeError
         except Exception as e:   # noqa
             got = ("raised", type(e).__name__, str(e)[:80])
+        if exp is AMBIGUOUS:
+            labels.add("ambiguous-after-redefault-skipped")
+            return None
         if got != exp:
             return f"{where}: request T{ti} served by {got!r} but the model says {exp!r}"
         return None
@@ -87,6 +103,7 @@ def interpret(ops, touched):
 
     def block():
         """Interpret ops until the matching exit; returns discrepancy or None."""
+        nonlocal base_had
         while pos[0] < len(ops):
             op = ops[pos[0]]
             pos[0] += 1
@@ -102,23 +119,34 @@ def interpret(ops, touched):
                     runtime.handle_by_default(types[ti], (lambda t: (lambda req: t))(tag))
                     defaults[ti] = tag
                     labels.add("late-default")
+            elif kind == "redefault":
+                ti = 2
+                if ti in defaults:
+                    # a second registration: runtimes that never held a handler for the type must see the new one
+                    tag = ("default", ti, len(redefaulted) + pos[0])
+                    runtime.handle_by_default(types[ti], (lambda t: (lambda req: t))(tag))
+                    defaults[ti] = tag
+                    redefaulted.add(ti)
+                    labels.add("default-registered-again")
             elif kind == "derive":
                 _, src, ti, hj, form = op
                 ti, hj = ti % 3, hj % 3
                 if src == "current":
-                    parent_obj, parent_over = runtime.current_runtime(), cur_over()
+                    if base_had is None and not stack:
+                        base_had = set(defaults)
+                    parent_obj, parent_over, parent_had = runtime.current_runtime(), cur_over(), (cur_had() or set())
                     labels.add("derived-here")
                 elif pool:
-                    parent_obj, parent_over = pool[src % len(pool)]
+                    parent_obj, parent_over, parent_had = pool[src % len(pool)]
                     labels.add("derived-elsewhere")
                 else:
-                    parent_obj, parent_over = Runtime(), {}
+                    parent_obj, parent_over, parent_had = Runtime(), {}, set(defaults)
                 before = {t: parent_over.get(t) for t in range(3)}
                 if form == "mapping":
                     new = parent_obj.handle({types[ti]: handlers[hj]})
                 else:
                     new = parent_obj.handle(types[ti], handlers[hj])
-                pool.append((new, {**parent_over, ti: ("h", hj)}))
+                pool.append((new, {**parent_over, ti: ("h", hj)}, set(parent_had) | set(defaults)))
                 if new is parent_obj:
                     return f"op {pos[0] - 1} {op}: handle() returned the runtime it derives from"
                 if src != "current" and {t: parent_over.get(t) for t in range(3)} != before:
@@ -127,10 +155,10 @@ def interpret(ops, touched):
                 if bad:
                     return bad
             elif kind == "fresh":
-                pool.append((Runtime(), {}))
+                pool.append((Runtime(), {}, set(defaults)))
             elif kind == "enter":
                 if not pool:
-                    pool.append((Runtime(), {}))
+                    pool.append((Runtime(), {}, set(defaults)))
                 which = op[1]
                 if which == "active" and stack:
                     idx = stack[-1]
@@ -241,11 +269,11 @@ def check(case, ctx):
 
 
 ALPHABET_SMALL = [("enter", "new", 0), ("enter", "active", 0), ("enter", "reused", 1), ("exit",), ("exit_exc",),
-                  ("derive", "current", 0, 0, "pair"), ("derive", 0, 1, 1, "mapping"), ("default",), ("run", 2)]
+                  ("derive", "current", 0, 0, "pair"), ("derive", 0, 1, 1, "mapping"), ("default",), ("redefault",), ("run", 2)]
 
 
 def enum_small(ctx):
-    n = 4 if ctx.tier == "quick" else 6
+    n = 5 if ctx.tier == "quick" else 6
     k = 0
     total = 0
     for length in range(1, n + 1):
@@ -278,7 +306,7 @@ def op_strategy():
         st.tuples(st.just("enter"), st.sampled_from(["new", "active", "reused"]), st.integers(0, 5)),
         st.just(("exit",)), st.just(("exit",)), st.just(("exit_exc",)),
         st.tuples(st.just("derive"), st.one_of(st.just("current"), st.integers(0, 5)), st.integers(0, 2), st.integers(0, 2), st.sampled_from(["pair", "mapping"])),
-        st.just(("fresh",)), st.just(("default",)),
+        st.just(("fresh",)), st.just(("default",)), st.just(("redefault",)),
         st.tuples(st.just("run"), st.integers(0, 2)),
     ).map(list)
 
@@ -286,5 +314,5 @@ def op_strategy():
 PARTS = [
     Part("exhaustive", check, enumerate=enum_small, budget={"quick": None, "thorough": None}),
     Part("random", check, strategy=lambda ctx: st.fixed_dictionaries({"ops": st.lists(op_strategy(), min_size=1, max_size=25), "touched": st.booleans()}),
-         budget={"quick": 200, "thorough": 3000}),
+         budget={"quick": 500, "thorough": 3000}),
 ]
